@@ -97,6 +97,8 @@ class FlowEmit:
             if lt == "N" and op in ("%", "<<", ">>", "&", "|", "^"):
                 lop = {"%": "%", "<<": "<<<", ">>": ">>>", "&": "&&&", "|": "|||", "^": "^^^"}[op]
                 return "(%s %s %s)" % (l, lop, r), "N"
+            if lt == "B" and op in ("&", "|"):      # non-short-circuit: both operands are pure here
+                return "(%s %s %s)" % (l, "&&" if op == "&" else "||", r), "B"
             die("unsupported operator %s on %s" % (op, lt))
         if k == "if":
             c, ct = self.ex(e[1], env)
@@ -219,6 +221,7 @@ class FlowEmit:
             if name in ("min", "max") and len(args) == 1:
                 a, _ = self.ex(args[0], env); return "(%s %s %s)" % (name, t, a), "N"
             if name == "leading_zeros": return "(KOps.clz64 %s)" % t, "N"
+            if name == "is_power_of_two" and not args: return "(KOps.isPow2 %s)" % t, "B"
             if name == "saturating_mul" and len(args) == 1:
                 a, _ = self.ex(args[0], env); return "(KOps.satMul %s %s)" % (t, a), "N"
         if ty.startswith("L("):
